@@ -30,8 +30,21 @@ TState == /\ IsEvent("state")
 TConnEnd == /\ IsEvent("connect_end")
             /\ IF Rec[l].ok THEN ConnectOk(Rec[l].id) ELSE (ph[Rec[l].id] = "connecting" /\ UNCHANGED vars)
 TDrop == IsEvent("drop") /\ Drop(Rec[l].id)
-TGc == /\ IsEvent("gc") /\ Gc
-       /\ history' = Rec[l].history_ids /\ Cardinality(alive') = Rec[l].alive_len
+(* Gc, except that the order in which contexts dropped within the same tick were pushed on the gc list is *)
+(* not observable (the drop event is emitted after the list's lock is released): any order of the batch.   *)
+MinN(a, b) == IF a < b THEN a ELSE b
+TGc == /\ IsEvent("gc") /\ gcq # <<>>
+       /\ LET B == ToSet(gcq)  H == Rec[l].history_ids  k == MinN(Len(gcq), HistSize) IN
+            /\ Len(H) = MinN(HistSize, Len(gcq) + Len(history))
+            /\ \A i \in 1..k : H[i] \in B
+            /\ Cardinality({H[i] : i \in 1..k}) = k
+            /\ SubSeq(H, k + 1, Len(H)) = SubSeq(history, 1, Len(H) - k)
+            /\ history' = H
+            /\ alive' = alive \ B
+            /\ lines' = [c \in Conns |-> IF c \in B THEN lines[c] + 1 ELSE lines[c]]
+            /\ gcq' = <<>>
+            /\ Cardinality(alive') = Rec[l].alive_len
+       /\ UNCHANGED <<ph, log, upUp, replies, created>>
 (* API snapshots taken by the driver while nothing else was going on *)
 TLive == /\ IsEvent("api_live") /\ UNCHANGED vars
          /\ ToSet(Rec[l].ids) = alive \ ToSet(gcq)
